@@ -45,9 +45,19 @@ type Target struct {
 	Unsafe   bool
 	FDSet    []byte // serialized FileDescriptorSet: dependencies first, the schema's file last
 	Messages map[string]Factory
+	Exts     []ExtVar
 
 	files *protoregistry.Files
 	file  protoreflect.FileDescriptor
+}
+
+// ExtVar: a generated proto2 extension descriptor variable (E_…)
+type ExtVar struct {
+	Name     string // proto field name
+	Num      int32
+	Kind     string
+	Extendee string
+	Desc     interface{}
 }
 
 func (t *Target) init() error {
